@@ -303,11 +303,105 @@ def keygen(ctx):
                 break
 
 
+def keygen_plan(ctx):
+    """Model differential for the generation glue (Jose/KeyGen.lean, Props/C18Gen.lean): for a grid of requests - key
+    type (known, unknown, other case) x size or curve (valid, boundary, negative, not a multiple of 8, unregistered) x
+    visibility x route (key class, JWKRegistry.generate_key, KeySet.generate_key_set with count -1 ... 3) - the ONE
+    request joserfc makes to the generator (`secrets.token_bytes(n)`, pyca `generate_private_key(e, bits)`, the curve
+    object, the OKP class) is recorded by interception and must be the one the model computes; refusals must have the
+    model's class; the returned key must hold the private half exactly when asked."""
+    from unittest import mock
+    import secrets
+    from cryptography.hazmat.primitives.asymmetric import ec as _ec
+    from joserfc.jwk import OctKey, RSAKey, ECKey, OKPKey, JWKRegistry, KeySet
+    from joserfc.rfc7518 import rsa_key as _rsa_mod, ec_key as _ec_mod
+    from joserfc.rfc8037 import okp_key as _okp_mod
+    from harness import keys as K
+    from model import model_eval
+    from wire import hx
+    rng = ctx.rng
+    CURVE_OF = {"secp256r1": "P-256", "secp384r1": "P-384", "secp521r1": "P-521", "secp256k1": "secp256k1"}
+    calls = []
+    real_token_bytes = secrets.token_bytes
+    canned_rsa = K.key("rsa2048", private=True).raw_value
+
+    def rec_token_bytes(n=None):
+        calls.append(f"token_bytes:{n}")
+        return real_token_bytes(n)
+
+    def rec_rsa(public_exponent, key_size, backend=None):
+        calls.append(f"rsa:{public_exponent}:{key_size}")
+        return canned_rsa
+
+    def rec_ec(curve, backend=None):
+        calls.append("ec:" + hx(CURVE_OF.get(curve.name, "?" + curve.name).encode()))
+        return _ec.generate_private_key(curve)
+
+    class OkpStub:
+        def __init__(self, crv, real):
+            self.crv, self.real = crv, real
+
+        def generate(self):
+            calls.append("okp:" + hx(self.crv.encode()))
+            return self.real.generate()
+    okp_map = {crv: OkpStub(crv, cls) for crv, cls in _okp_mod.PRIVATE_KEYS_MAP.items()}
+    oct_sizes = [-16, -8, -1, 0, 1, 7, 8, 12, 16, 24, 64, 104, 112, 120, 128, 192, 256, 384, 512, 1000, 1024, 4096]
+    rsa_sizes = [-8, 0, 8, 504, 511, 512, 513, 520, 1024, 2040, 2047, 2048, 2049, 3072, 4096]
+    ec_names = ["P-256", "P-384", "P-521", "secp256k1", "P-255", "p-256", "secp256r1", "Ed25519", "", "P-256 "]
+    okp_names = ["Ed25519", "Ed448", "X25519", "X448", "ed25519", "P-256", "", "X25519\n"]
+    reqs = []
+    for kty, cls, args in (("oct", OctKey, oct_sizes), ("RSA", RSAKey, rsa_sizes), ("EC", ECKey, ec_names), ("OKP", OKPKey, okp_names)):
+        for a in (args if ctx.tier != "quick" else rng.sample(args, min(len(args), 9))):
+            for private in (True, False):
+                reqs.append(("class", kty, cls, a, private, None))
+                reqs.append(("registry", kty, cls, a, private, None))
+                reqs.append(("keyset", kty, cls, a, private, rng.choice([-1, 0, 1, 2, 3])))
+    for kty in ("xxx", "rsa", "Oct", ""):
+        reqs.append(("registry", kty, None, 256, True, None))
+        reqs.append(("keyset", kty, None, "P-256", True, rng.choice([0, 2])))
+    lines = []
+    for route, kty, cls, a, private, count in reqs:
+        arg = f"I{a}" if isinstance(a, int) else "C" + hx(a.encode())
+        if route == "keyset":
+            lines.append(f"key.genset {hx(kty.encode())} {arg} {1 if private else 0} {count}")
+        else:
+            lines.append(f"key.gen {hx(kty.encode())} {arg} {1 if private else 0}")
+    answers = model_eval(lines) if ctx.driver_ok else [None] * len(lines)
+    for (route, kty, cls, a, private, count), ln, m in zip(reqs, lines, answers):
+        del calls[:]
+        with mock.patch.object(secrets, "token_bytes", rec_token_bytes), mock.patch.object(_rsa_mod, "generate_private_key", rec_rsa), \
+                mock.patch.object(_ec_mod, "generate_private_key", rec_ec), mock.patch.dict(_okp_mod.PRIVATE_KEYS_MAP, okp_map):
+            try:
+                if route == "class":
+                    ks = [cls.generate_key(a, private=private)]
+                elif route == "registry":
+                    ks = [JWKRegistry.generate_key(kty, a, private=private)]
+                else:
+                    ks = list(KeySet.generate_key_set(kty, a, private=private, count=count).keys)
+                impl = ("ok", [f"{c}:{1 if k.is_private else 0}" for c, k in zip(calls, ks)] if len(calls) == len(ks) else ["calls!=keys"] + list(calls))
+            except Exception as e:  # noqa: BLE001
+                impl = ("err", err_name(e))
+        ctx.count("keygen-plan", (route, kty, repr(a), private, count), True, f"{route}:{kty}:{impl[0] if impl[0] == 'ok' else impl[1]}")
+        if m is None or m == "ok unmodelled":
+            continue
+        if m.startswith("ok "):
+            body = m[3:]
+            mo = ("ok", [] if body == "-" else body.split(","))
+        else:
+            mo = ("err", m[4:])
+        if mo != impl:
+            ctx.disagreements.append({"suite": "keygen-plan", "request": f"{route} {kty!r} {a!r} private={private} count={count}", "model": repr(mo)[:300], "impl": repr(impl)[:300]})
+            if impl[0] == "ok" and mo[0] == "ok":
+                ctx.report(f"generation request {route} {kty!r} {a!r} private={private}: the generator was asked for {impl[1]} instead of {mo[1]}",
+                           {"route": route, "kty": kty, "arg": a, "private": private, "count": count}, f"keygen-plan:{kty}")
+
+
 def run(ctx):
     multi_recipient(ctx)
     tape_runs(ctx)
     stats(ctx)
     keygen(ctx)
+    keygen_plan(ctx)
 
 
 def search(ctx):
